@@ -820,16 +820,44 @@ func (c *FuncCtx) execFor(st *State, x *ast.ForStmt) []outcome {
 	}
 	li := c.newLoopInfo(x, x.Pos())
 	inv, dec := c.loopSpec(li.ord)
+	// a canonical index loop whose body leaves i alone terminates like the
+	// range loop it stands for: E - i is its variant unless the contract gives one
+	canon := canonicalIndexVar(c, x)
+	if canon != nil && assignsVar(c, x.Body, canon) {
+		canon = nil
+	}
+	if canon != nil && len(dec) == 0 && c.contract != nil {
+		cond := x.Cond.(*ast.BinaryExpr)
+		dec = []*Clause{{Kind: "decreases", Loop: li.ord, Text: "(implicit) bound - index", Expr: &ast.BinaryExpr{X: cond.Y, Op: token.SUB, Y: cond.X}}}
+	}
 	c.needVariant(li, dec)
 	// ghost iteration counter cnt_N
 	cntName := fmt.Sprintf("cnt_%d", li.ord)
 	li.extra[cntName] = &Val{T: tInt, S: "0", Sort: "Int"}
+	// a canonical index loop  for i := 0; i < E; i++  also answers to the
+	// ghost name idx_N of the equivalent range loop (so that a contract survives
+	// the rewriting of one into the other)
+	idxName := fmt.Sprintf("idx_%d", li.ord)
+	idxVar := canonicalIndexVar(c, x)
+	if idxVar != nil {
+		if v, ok := st.vars[idxVar]; ok {
+			li.extra[idxName] = v
+		}
+	}
 	c.checkInv(st, li, inv, "init")
 	h := st.clone()
 	c.havocLoop(h, li)
 	cnt := c.fresh(cntName, "Int")
 	h.assume(app("<=", "0", cnt))
 	li.extra[cntName] = &Val{T: tInt, S: cnt, Sort: "Int"}
+	if idxVar != nil {
+		if v, ok := h.vars[idxVar]; ok {
+			li.extra[idxName] = v
+			if canon != nil {
+				h.assume(app("<=", "0", v.S))
+			}
+		}
+	}
 	c.assumeInv(h, li, inv)
 	v0 := c.variantTerms(h, li, dec)
 	var outs []outcome
@@ -857,7 +885,12 @@ func (c *FuncCtx) execFor(st *State, x *ast.ForStmt) []outcome {
 				c.finishIteration(o.st, &liNext, inv, dec, v0, func(s *State) *State {
 					if x.Post != nil {
 						po := c.execStmt(s, x.Post)
-						return po[0].st
+						s = po[0].st
+					}
+					if idxVar != nil && s != nil {
+						if v, ok := s.vars[idxVar]; ok {
+							liNext.extra[idxName] = v
+						}
 					}
 					return s
 				})
@@ -874,6 +907,65 @@ func (c *FuncCtx) execFor(st *State, x *ast.ForStmt) []outcome {
 		outs = append(outs, outcome{oNext, e})
 	}
 	return c.mergeNext(outs)
+}
+
+// assignsVar: does the block assign v (other than by declaring it)?
+func assignsVar(c *FuncCtx, b *ast.BlockStmt, v *types.Var) bool {
+	found := false
+	ast.Inspect(b, func(n ast.Node) bool {
+		switch s := n.(type) {
+		case *ast.AssignStmt:
+			for _, l := range s.Lhs {
+				if id, ok := l.(*ast.Ident); ok && c.eng.info.Uses[id] == v {
+					found = true
+				}
+			}
+		case *ast.IncDecStmt:
+			if id, ok := s.X.(*ast.Ident); ok && c.eng.info.Uses[id] == v {
+				found = true
+			}
+		case *ast.UnaryExpr:
+			if s.Op == token.AND {
+				if id, ok := s.X.(*ast.Ident); ok && c.eng.info.Uses[id] == v {
+					found = true
+				}
+			}
+		}
+		return true
+	})
+	return found
+}
+
+// canonicalIndexVar: the variable i of a loop of the shape
+// for i := 0; i < E; i++ (nil for any other loop).
+func canonicalIndexVar(c *FuncCtx, x *ast.ForStmt) *types.Var {
+	as, ok := x.Init.(*ast.AssignStmt)
+	if !ok || as.Tok != token.DEFINE || len(as.Lhs) != 1 || len(as.Rhs) != 1 {
+		return nil
+	}
+	id, ok := as.Lhs[0].(*ast.Ident)
+	if !ok {
+		return nil
+	}
+	if lit, ok := as.Rhs[0].(*ast.BasicLit); !ok || lit.Value != "0" {
+		return nil
+	}
+	cond, ok := x.Cond.(*ast.BinaryExpr)
+	if !ok || cond.Op != token.LSS {
+		return nil
+	}
+	if ci, ok := cond.X.(*ast.Ident); !ok || ci.Name != id.Name {
+		return nil
+	}
+	inc, ok := x.Post.(*ast.IncDecStmt)
+	if !ok || inc.Tok != token.INC {
+		return nil
+	}
+	if pi, ok := inc.X.(*ast.Ident); !ok || pi.Name != id.Name {
+		return nil
+	}
+	v, _ := c.eng.info.Defs[id].(*types.Var)
+	return v
 }
 
 func (c *FuncCtx) needVariant(li *loopInfo, dec []*Clause) {
